@@ -5,58 +5,7 @@
 
 package storage
 
-//@ -- ═════════ storage key space (shared by all storage properties) ═════════
-//@ -- A key id (mathint) is the abstract identity of the key's byte string (builtin kvkey). Hashes/keys enter a key id
-//@ -- through THEIR id kvval(h) (the identity of the 32-byte string; injective, see common.HashOfVal), so that all
-//@ -- quantifiers of the key-space axioms range over integers. The constructors are deterministic functions of their
-//@ -- arguments, hence `kvkey(result) == <Ctor>KeyId(args)` with an uninterpreted <Ctor>KeyId.
-//@ -- keykind/keyhid/keynum are the PARSE functions of a key: which prefix it starts with, the id of the 32 bytes that
-//@ -- follow the prefix, and the numeric suffix. They are well defined because the prefixes used here start with six
-//@ -- different bytes ("UTXO" "GHOST" "DEPOSIT" "MINTUNIVERSAL" "TRANSACTION" "FINALIZATION": U G D M T F), the hash/key
-//@ -- payload has the fixed width 32, binary.PutVarint is injective and AppendUint64 is fixed width. The axioms say that
-//@ -- parsing inverts the constructors: they imply injectivity of every constructor and pairwise disjoint ranges.
-//@ -- ASSUMED (argued above, not derived from the constants by the engine).
-//@ uninterp UtxoKeyId(h mathint, i mathint) mathint
-//@ uninterp GhostKeyId(k mathint) mathint
-//@ uninterp DepositKeyId(u mathint) mathint
-//@ uninterp MintKeyId(batch mathint) mathint
-//@ uninterp TxKeyId(h mathint) mathint
-//@ uninterp FinKeyId(h mathint) mathint
-//@ uninterp keykind(k mathint) mathint
-//@ uninterp keyhid(k mathint) mathint
-//@ uninterp keynum(k mathint) mathint
-//@ axiom forall h, i mathint :: {UtxoKeyId(h, i)} keykind(UtxoKeyId(h, i)) == 1 && keyhid(UtxoKeyId(h, i)) == h && (0 <= i && i <= 1024 ==> keynum(UtxoKeyId(h, i)) == i)
-//@ axiom forall h mathint :: {GhostKeyId(h)} keykind(GhostKeyId(h)) == 2 && keyhid(GhostKeyId(h)) == h
-//@ axiom forall h mathint :: {DepositKeyId(h)} keykind(DepositKeyId(h)) == 3 && keyhid(DepositKeyId(h)) == h
-//@ axiom forall b mathint :: {MintKeyId(b)} keykind(MintKeyId(b)) == 4 && (0 <= b && b < 18446744073709551616 ==> keynum(MintKeyId(b)) == b)
-//@ axiom forall h mathint :: {TxKeyId(h)} keykind(TxKeyId(h)) == 5 && keyhid(TxKeyId(h)) == h
-//@ axiom forall h mathint :: {FinKeyId(h)} keykind(FinKeyId(h)) == 6 && keyhid(FinKeyId(h)) == h
-//@ spec UK(h crypto.Hash, i mathint) mathint = UtxoKeyId(kvval(h), i)
-//@ spec GK(k crypto.Key) mathint = GhostKeyId(kvval(k))
-//@ spec TK(h crypto.Hash) mathint = TxKeyId(kvval(h))
-//@ spec FK(h crypto.Hash) mathint = FinKeyId(kvval(h))
-//@ spec DepositSlot(d *common.DepositData) mathint = DepositKeyId(kvval(common.DepositUniq(d.Chain, d.Transaction, d.Index)))
-
-//@ assume func graphUtxoKey
-//@   panics when index > 1024
-//@   modifies nothing
-//@   ensures fresh(result) && kvkey(result) == UK(hash, index)
-//@ assume func graphGhostKey
-//@   modifies nothing
-//@   ensures fresh(result) && kvkey(result) == GK(k)
-//@ assume func graphTransactionKey
-//@   modifies nothing
-//@   ensures fresh(result) && kvkey(result) == TK(txh)
-//@ assume func graphFinalizationKey
-//@   modifies nothing
-//@   ensures fresh(result) && kvkey(result) == FK(txh)
-//@ assume func graphMintKey
-//@   modifies nothing
-//@   ensures fresh(result) && kvkey(result) == MintKeyId(batch)
-//@ assume func graphDepositKey
-//@   requires deposit != nil
-//@   modifies nothing
-//@   ensures fresh(result) && kvkey(result) == DepositSlot(deposit)
+//@ -- (the storage key space, kinds 1..6 and the constructors graphUtxoKey … graphDepositKey: zz_contracts_keyspace_verif.go)
 
 //@ -- ═════════ abstractions of the stored state ═════════
 //@ -- UTXO record: common.UtxoLock(v) is the LockHash field of the record encoded by the value with id v
